@@ -2,6 +2,9 @@
 calls to sibling methods on the same object.  Used by K13 (reset completeness) and K10."""
 from .core import cname, ap, walk
 
+# non-const member functions that only hand out access; the write (if any) shows up as an
+# assignment through the returned reference
+ACCESSORS = ('operator[]', 'at', 'begin', 'end', 'front', 'back', 'data', 'get', 'operator->', 'operator*', 'find', 'size', 'empty')
 DEFINITE_MUTATORS = ('reset', 'clear', 'operator=', 'assign', 'swap')
 
 
@@ -46,16 +49,22 @@ def event_writes(e):
                 must.add(f)
     elif k == 'call':
         r = e.get('recv')
-        if r is not None and not e.get('cmeth'):
+        if r is not None and not e.get('cmeth') and cname(e).split('::')[-1] not in ACCESSORS:
             p = ap(r)
             f = _field_of_path(p)
             if f and p != 'this':
                 may.add(f)
                 if p == 'this.' + f and cname(e).split('::')[-1] in DEFINITE_MUTATORS:
                     must.add(f)
-        # fields passed by non-const reference / address
+        # fields (or their elements) bound to a non-const reference parameter
+        for ai in e.get('mutargs', []) or []:
+            args = e.get('args', [])
+            if ai < len(args):
+                f = _field_of_path(ap(args[ai]))
+                if f:
+                    may.add(f)
     elif k == 'acc':
-        if e.get('a') in ('addr',):
+        if e.get('a') in ('addr', 'mutarg'):
             f = _field_of_path(ap(e.get('e')))
             if f:
                 may.add(f)
